@@ -99,10 +99,11 @@ def play_items(chunks):
     return items
 
 
-def script(cfg, policy, items, dump=True, close=True, extra_after=()):
+def script(cfg, policy, items, dump=True, close=True, extra_after=(), op="play"):
+    """op: "play" = the hand-over discipline of test/test.c; "pump" = the documented protocol (alternate until done or stalled)"""
     sc = ["conn new %s %s" % (cfg, policy), "conn open"]
     if items:
-        sc.append("conn play " + ",".join(items))
+        sc.append("conn %s " % op + ",".join(items))
     sc += list(extra_after)
     if close:
         sc.append("conn close")
@@ -173,6 +174,8 @@ def gen_request(rng, idx, opts):
         m.headers.append((b"Host", [host + (b":%d" % rng.choice((80, 8080)) if rng.random() < 0.3 else b"")]))
     for _ in range(rng.randint(0, 4)):
         name = b"X-" + rand_token(rng, 1, 6)
+        if name.lower() in (b"x-id", b"x-trailer"):      # reserved for the generator's own tag headers
+            name += b"0"
         pieces = [rand_value(rng)]
         if opts.get("folding") and rng.random() < 0.25:
             pieces.append(rand_value(rng) or b"x")
@@ -270,6 +273,8 @@ def gen_response(rng, idx, req, last, opts):
     m.headers = [(b"X-Id", [b"id%d" % idx])]
     for _ in range(rng.randint(0, 3)):
         name = b"X-" + rand_token(rng, 1, 6)
+        if name.lower() in (b"x-id", b"x-trailer"):      # reserved for the generator's own tag headers
+            name += b"0"
         pieces = [rand_value(rng)]
         if opts.get("folding") and rng.random() < 0.2:
             pieces.append(rand_value(rng) or b"y")
